@@ -194,7 +194,7 @@ func init() {
 	fw.Register(&fw.Property{
 		ID:     "C01",
 		Run:    runC01,
-		Rule:   "(a) every program with at most N AST nodes (N=5 quick, 6 + a 1/8 sample of 7 thorough) over e ::= c | x | (if e e [e]) | (do e*) | (let (x e [x e]) e*) | (def x e) | (fn params e*) | (e e*) | (quote e) | (trace! e), c in {nil false 0 1 \"s\" ()}, x in {a b f + list first}; (b) seeded typed programs (closures, shadowing, recursion, mutual recursion, & rest, inner defs, escaping closures, 10% injected faults); each is run by the real EVAL in a fresh scope and by the harness's reference interpreter; result, error class (and thrown value / unbound name), ordered trace! events and final bindings must agree; distinct = distinct program skeletons (constants erased) whose trace is non-empty",
+		Rule:   "(a) every program with at most N AST nodes (N=5 quick, 6 + a 1/8 sample of 7 thorough) over e ::= c | x | (if e e [e]) | (do e*) | (let (x e [x e]) e*) | (def x e) | (fn params e*) | (e e*) | (quote e) | (trace! e), c in {nil false 0 1 \"s\" ()}, x in {a b f + list first}; (b) seeded typed programs (closures, shadowing, recursion, mutual recursion, & rest, inner defs, escaping closures, 10% injected faults); each is run by the real EVAL in a fresh scope and by the harness's reference interpreter; result, error class (and thrown value / unbound name), ordered trace! events and final bindings must agree; distinct = distinct program skeletons (constants erased) whose trace is non-empty; shapes added after seeded misses: shadowed builtin names, an operand re-defining the callee, rest parameters with too few positional arguments, closures capturing a name that a tail-position let of the same scope re-binds, a name bound twice in one let with a closure in between, forward references inside let, unbound symbols in statement position of do/let/fn bodies",
 		Assume: []string{"refmal is the reading of the mal guide + README + statement; programs on which it reports an ill-formed special form or exhausts its step budget are discarded and counted", "error message text is not compared"},
 		Finish: func(m *fw.Merged) {
 			m.Floor("programs", 10000)
